@@ -74,8 +74,8 @@ class Twin:
                 try:
                     posts = c.ensures(v, old, result)
                 except Exception as ex:
-                    posts = [("evaluable", False)]
-                    detail_ex = repr(ex)
+                    import traceback
+                    posts = [("evaluable(%s)" % traceback.format_exc()[-300:], False)]
                 for name, t in posts:
                     key = qualname + "/post/" + name
                     twin.hits[key] = twin.hits.get(key, 0) + 1
